@@ -227,6 +227,15 @@ func limbField(t types.Type) (idx int, arr *types.Array, elem *types.Basic, ok b
 // ---------------------------------------------------------------------------
 // comparing forms
 
+// shortInt abbreviates long decimal numbers.
+func shortInt(n *big.Int) string {
+	s := n.String()
+	if len(s) > 30 {
+		return fmt.Sprintf("%s...%s (%d digits)", s[:10], s[len(s)-6:], len(s))
+	}
+	return s
+}
+
 func prettyRat(r *big.Rat) string {
 	if r.IsInt() {
 		n := r.Num()
@@ -241,8 +250,9 @@ func prettyRat(r *big.Rat) string {
 			// c * 2^k
 			tz := new(big.Int).Abs(n).TrailingZeroBits()
 			if tz >= 10 {
-				return fmt.Sprintf("%s*2^%d", new(big.Int).Rsh(n, tz).String(), tz)
+				return fmt.Sprintf("%s*2^%d", shortInt(new(big.Int).Rsh(n, tz)), tz)
 			}
+			return shortInt(n)
 		}
 		return s
 	}
@@ -419,11 +429,15 @@ func (w *World) diffModP(got, want *Form, sumName, cellName string, cells []*Int
 		if vi.Kind == VOpaque {
 			msgs = append(msgs, fmt.Sprintf("undecided: %s depends on %s, the result of an operation outside the affine/layout domain", sumName, vi.Name))
 		} else {
-			wantDesc := e.String()
-			if vi.Kind == VBit && want.Coef(v).Sign() != 0 {
-				wantDesc = fmt.Sprintf("%s mod p = %s", prettyRat(want.Coef(v)), e)
+			wantDesc := shortInt(e)
+			if want.Coef(v).Sign() != 0 && want.Coef(v).IsInt() {
+				wantDesc = fmt.Sprintf("%s mod p = %s", prettyRat(want.Coef(v)), shortInt(e))
 			}
-			msgs = append(msgs, fmt.Sprintf("coefficient of %s in %s is %s = %s (mod p), want = %s (%s)", vi.Name, sumName, prettyRat(got.Coef(v)), g, wantDesc, attribution(v, cellName, cells, offs)))
+			gotDesc := prettyRat(got.Coef(v))
+			if !got.Coef(v).IsInt() || got.Coef(v).Num().Cmp(g) != 0 {
+				gotDesc += " = " + shortInt(g) + " (mod p)"
+			}
+			msgs = append(msgs, fmt.Sprintf("coefficient of %s in %s is %s, want = %s (%s)", vi.Name, sumName, gotDesc, wantDesc, attribution(v, cellName, cells, offs)))
 		}
 		if len(msgs) >= 3 {
 			return msgs
